@@ -79,7 +79,7 @@ def solve_poisson_equation(
     solver = operator.factory(bcs=bcs, **kwargs)
 
     # solve the poisson problem
-    result = ScalarField(rhs.grid, label=label)
+    result = ScalarField(rhs.grid, label=label, dtype=rhs.dtype)
     try:
         solver(rhs.data, result.data)  # type: ignore
     except RuntimeError as err:
